@@ -25,8 +25,6 @@ structure ReduceCtx (ev : Leaf → Bool) (G P : Leaf → Prop) (W : VC → Prop)
   /-- the variables of the leaves are spelt canonically (true of what `SingleMarker.__init__` stores;
   `leafSpec_canon` adds it to any invariant) -/
   canon : ∀ l, G l → Canon l
-  /-- the one leaf-level fact about `_merge_python_version_single_markers` (see `ReparseNames`) -/
-  reparse : ReparseNames
   /-- C11 `pyConstraint_exact` for a single-marker-like -/
   gpcLeaf_exact : ∀ (l : Leaf) (c : VC), G l → P l → isPyName l.name = true → gpcLeaf l = .ok c →
     W c ∧ c.allowsPlain py = ev l
@@ -145,14 +143,14 @@ theorem reduce_exact_aux {P : Leaf → Prop} {W : VC → Prop} {pc : VC} {py : V
                 have hvars : ∀ n ∈ M.vars u, n ∈ pyNames := by
                   intro n hn
                   obtain ⟨m, hm, hnm⟩ := varsList_mem pyOnly n
-                    ((of_vars C.reparse C.spec C.canon _ _ pyOnly u hgp).2 hu n hn)
+                    ((of_vars C.spec C.canon _ _ pyOnly u hgp).2 hu n hn)
                   have := (hmem m hm).2
                   split at this
                   · cases this
                   · rename_i o ho
                     simp [pure, Except.pure] at this
                     rw [beq_vars _ _ this] at hnm
-                    exact only_mentions_thm C.reparse C.spec C.canon pyNames m o
+                    exact only_mentions_thm C.spec C.canon pyNames m o
                       ((M.goodAll_iff ms).1 hgl m (hmem m hm).1) ho n hnm
                 obtain ⟨hwg, hlow⟩ := C.gpc_lower u g (unionOf_sound C.spec hgp hu).1 hvars hg'
                 have hsu := hlow (C.allowsAll_sound g hwg hsc)
